@@ -45,8 +45,10 @@ class Judge:
             for j in c.jumpers:
                 if j.bib == str(op[1]):
                     ncell = len(j.attempts_by_height[-1]) if c.heights and len(j.attempts_by_height) == len(c.heights) else 0
+        was_out = {j.bib for j in c.jumpers if getattr(j, 'eliminated', False)}
         out = H.apply_op(athlib, c, op)
         after = H.snap(c)
+        back = [j.bib for j in c.jumpers if j.bib in was_out and not getattr(j, 'eliminated', False)]
         hist = ops_so_far + [op]
         self.kinds[(op[0] if op[0] != 'trial' else op[2], out)] += 1
         def fail(expected, got, note):
@@ -69,6 +71,10 @@ class Judge:
             # the clause as such (theorems C02_attempts_at_height / C02_jumpoff_accepted_iff: holds in every reachable state of the model)
             fail('at most three attempts at a height, one in a jump-off: refused', 'accepted as attempt number %d at this height (state %s)' % (ncell + 1, st0),
                  'more attempts at a height than the rules give')
+        if back and c.state in ('scheduled', 'started', 'won'):
+            # theorem C02_back_only_with_one_attempt: in the model nobody who was out is in again unless a jump-off is on
+            fail('an athlete who is out stays out unless re-instated for a jump-off', 'bib %s is back in, state %s' % (','.join(back), c.state),
+                 'out, then in again outside a jump-off')
         if st0 in ('finished', 'drawn') and out == 'ok':
             fail('nothing is accepted once finished or drawn', out, 'accepted in a terminal state')
         return out, out + '|' + after
